@@ -44,6 +44,11 @@ type Solver struct {
 	lastErr   string
 	fastMs    int
 	curMs     int
+	rawExtra  string
+	rawTerms  []*Term
+	dirty     bool
+	sinceStart   int
+	restartEvery int
 }
 
 func (s *Solver) setTimeout(ms int) {
@@ -54,7 +59,13 @@ func (s *Solver) setTimeout(ms int) {
 }
 
 func NewSolver(bin []string, timeoutMs int) *Solver {
-	s := &Solver{bin: bin, timeoutMs: timeoutMs, fastMs: 200}
+	s := &Solver{bin: bin, timeoutMs: timeoutMs, fastMs: 200, restartEvery: 3000}
+	if v := os.Getenv("GOSYM_FASTMS"); v != "" {
+		s.fastMs, _ = strconv.Atoi(v)
+	}
+	if v := os.Getenv("GOSYM_RESTART"); v != "" {
+		s.restartEvery, _ = strconv.Atoi(v)
+	}
 	if p := os.Getenv("GOSYM_SMTLOG"); p != "" {
 		f, _ := os.Create(fmt.Sprintf("%s.%d", p, os.Getpid()))
 		s.log = f
@@ -87,6 +98,7 @@ func (s *Solver) start() {
 		}
 	}(s.out, s.lines)
 	s.stack = nil
+	s.sinceStart = 0
 	s.defined = map[*Term]bool{}
 	s.declVar = map[*Term]bool{}
 	s.declUF = map[string]bool{}
@@ -94,6 +106,7 @@ func (s *Solver) start() {
 	s.send("(set-option :produce-models true)")
 	s.curMs = 0
 	s.setTimeout(s.fastMs)
+	s.dirty = false
 }
 
 func (s *Solver) Close() {
@@ -226,6 +239,9 @@ var valRe = regexp.MustCompile(`\(\s*([^\s()]+)\s+(#x[0-9a-fA-F]+|#b[01]+|true|f
 // Check decides pc ∧ extra. Returns "sat", "unsat" or "unknown"; with
 // wantModel and sat it also returns values for every declared variable.
 func (s *Solver) Check(pc []*Term, extra []*Term, wantModel bool) (string, map[*Term]uint64) {
+	if s.rawExtra == "" {
+		s.MaybeRestart()
+	}
 	for attempt := 0; attempt < 2; attempt++ {
 		res, m, retry := s.check1(pc, extra, wantModel)
 		if !retry {
@@ -239,40 +255,36 @@ func (s *Solver) Check(pc []*Term, extra []*Term, wantModel bool) (string, map[*
 
 func (s *Solver) check1(pc []*Term, extra []*Term, wantModel bool) (string, map[*Term]uint64, bool) {
 	t0 := time.Now()
+	s.sinceStart++
 	s.sync(pc)
 	for _, e := range extra {
 		s.define(e)
 	}
-	if len(extra) > 0 {
+	hasExtra := len(extra) > 0 || s.rawExtra != ""
+	if hasExtra {
 		s.send("(push 1)")
 		for _, e := range extra {
 			s.send("(assert " + smtName(e) + ")")
 		}
+		if s.rawExtra != "" {
+			s.send("(assert " + s.rawExtra + ")")
+		}
 	}
 	s.Stats.Queries++
 	res := "unknown"
-	for stage := 0; stage < 2 && res == "unknown"; stage++ {
-		cmd := "(check-sat)"
-		if stage == 0 {
-			s.setTimeout(s.fastMs)
-		} else {
-			s.setTimeout(s.timeoutMs)
-			cmd = "(check-sat-using default)"
-			s.Stats.Slow++
-		}
-		lines, ok := s.roundtrip(cmd)
+	s.setTimeout(s.fastMs)
+	{
+		lines, ok := s.roundtrip("(check-sat)")
 		if !ok {
 			s.Stats.Errors++
 			s.lastErr = "solver died or watchdog expired"
-			d := time.Since(t0).Seconds()
-			s.Stats.Seconds += d
+			s.Stats.Seconds += time.Since(t0).Seconds()
 			return "unknown", nil, true
 		}
 		for _, l := range lines {
 			l = strings.TrimSpace(l)
 			if strings.HasPrefix(l, "(error") {
 				if strings.Contains(l, "canceled") || strings.Contains(l, "timeout") {
-					// z3 5.x reports an expired :timeout this way
 					res = "unknown"
 					continue
 				}
@@ -285,6 +297,32 @@ func (s *Solver) check1(pc []*Term, extra []*Term, wantModel bool) (string, map[
 				res = l
 			}
 		}
+	}
+	if res == "unknown" {
+		// The fast incremental attempt timed out. z3's incremental context
+		// is not trustworthy after a cancelled check (observed: sat answers
+		// whose model violates asserted terms), so it is discarded, and the
+		// query is decided by a fresh non-incremental process.
+		if hasExtra {
+			s.send("(pop 1)")
+		}
+		s.dirty = true
+		s.Stats.Slow++
+		r, m := s.oneShot(pc, extra, s.rawExtra, s.rawTerms, wantModel)
+		d := time.Since(t0).Seconds()
+		s.Stats.Seconds += d
+		if d > s.Stats.MaxQuery {
+			s.Stats.MaxQuery = d
+		}
+		switch r {
+		case "sat":
+			s.Stats.Sat++
+		case "unsat":
+			s.Stats.Unsat++
+		default:
+			s.Stats.Unknown++
+		}
+		return r, m, false
 	}
 	var model map[*Term]uint64
 	if res == "sat" && wantModel {
@@ -327,7 +365,7 @@ func (s *Solver) check1(pc []*Term, extra []*Term, wantModel bool) (string, map[
 			}
 		}
 	}
-	if len(extra) > 0 {
+	if hasExtra {
 		s.send("(pop 1)")
 	}
 	d := time.Since(t0).Seconds()
@@ -347,6 +385,109 @@ func (s *Solver) check1(pc []*Term, extra []*Term, wantModel bool) (string, map[
 		s.Stats.Unknown++
 	}
 	return res, model, false
+}
+
+// MaybeRestart replaces the solver process after a number of queries: z3's
+// incremental context degrades badly as definitions and popped scopes pile up.
+// Must not be called between define() and the query that uses the definition.
+func (s *Solver) MaybeRestart() {
+	if s.sinceStart > s.restartEvery || s.dirty {
+		s.dirty = false
+		s.Close()
+		s.start()
+	}
+}
+
+// CheckRaw decides pc ∧ raw where raw is an SMT-LIB Bool expression over
+// already defined terms.
+func (s *Solver) CheckRaw(pc []*Term, raw string, rawTerms []*Term, wantModel bool) (string, map[*Term]uint64) {
+	s.rawExtra = raw
+	s.rawTerms = rawTerms
+	defer func() { s.rawExtra = ""; s.rawTerms = nil }()
+	return s.Check(pc, nil, wantModel)
+}
+
+// oneShot decides pc ∧ extra ∧ raw in a fresh process without push/pop, so
+// that z3 runs its full non-incremental strategy.
+func (s *Solver) oneShot(pc, extra []*Term, raw string, rawTerms []*Term, wantModel bool) (string, map[*Term]uint64) {
+	o := &Solver{bin: s.bin, timeoutMs: s.timeoutMs, fastMs: s.timeoutMs, restartEvery: 1 << 30, log: s.log}
+	o.start()
+	defer o.Close()
+	for _, t := range pc {
+		o.define(t)
+		o.send("(assert " + smtName(t) + ")")
+	}
+	for _, t := range extra {
+		o.define(t)
+		o.send("(assert " + smtName(t) + ")")
+	}
+	for _, t := range rawTerms {
+		o.define(t)
+	}
+	if raw != "" {
+		o.send("(assert " + raw + ")")
+	}
+	lines, ok := o.roundtrip("(check-sat)")
+	if !ok {
+		s.Stats.Errors++
+		s.lastErr = "one-shot solver died or watchdog expired"
+		return "unknown", nil
+	}
+	res := "unknown"
+	for _, l := range lines {
+		l = strings.TrimSpace(l)
+		if strings.HasPrefix(l, "(error") {
+			if strings.Contains(l, "canceled") || strings.Contains(l, "timeout") {
+				continue
+			}
+			s.Stats.Errors++
+			s.lastErr = l
+			return "unknown", nil
+		}
+		if l == "sat" || l == "unsat" || l == "unknown" {
+			res = l
+		}
+	}
+	if res != "sat" || !wantModel {
+		return res, nil
+	}
+	var names []string
+	byName := map[string]*Term{}
+	for v := range o.declVar {
+		names = append(names, v.name)
+		byName[v.name] = v
+	}
+	model := map[*Term]uint64{}
+	if len(names) > 0 {
+		ml, ok := o.roundtrip("(get-value (" + strings.Join(names, " ") + "))")
+		if !ok {
+			s.Stats.Errors++
+			return "unknown", nil
+		}
+		parseModel(strings.Join(ml, " "), byName, model)
+	}
+	return res, model
+}
+
+func parseModel(txt string, byName map[string]*Term, model map[*Term]uint64) {
+	for _, mm := range valRe.FindAllStringSubmatch(txt, -1) {
+		v := byName[mm[1]]
+		if v == nil {
+			continue
+		}
+		var x uint64
+		switch {
+		case mm[2] == "true":
+			x = 1
+		case mm[2] == "false":
+			x = 0
+		case strings.HasPrefix(mm[2], "#x"):
+			x, _ = strconv.ParseUint(mm[2][2:], 16, 64)
+		default:
+			x, _ = strconv.ParseUint(mm[2][2:], 2, 64)
+		}
+		model[v] = x
+	}
 }
 
 // OneShot decides the conjunction of terms in a fresh process of the given
